@@ -12,6 +12,7 @@ from xknx.secure.keyring import sync_load_keyring
 from xknx.telegram import IndividualAddress
 from xknx.tools import group_value_write
 
+KEYFILE = Path(__file__).parent / "test/secure_tests/resources/SecureTest.knxkeys"
 
 
 def _secure_xknx() -> tuple[XKNX, list[bytes]]:
